@@ -75,6 +75,10 @@ Definition m_truthy (v : val) (w : world) : res (bool * world) :=
   | None, VNum (Fin a) => do z <- decide (a = 0)%R w; Ok (negb (fst z), snd z)
   | None, _ => Ok (true, w)
   end.
+(* numpy arrays: payload as a (nested) list; [ul] forgets the array tag, [arr] puts it on a list result *)
+Definition ul (v : val) : val := match v with VArr l => VList l | _ => v end.
+Definition arr (v : val) : val := match v with VList l => VArr l | _ => v end.
+Definition is_seq (v : val) : bool := match v with VList _ | VArr _ => true | _ => false end.
 Definition lift_x (r : res (xreal * world)) : res (val * world) := do xw <- r; Ok (VNum (fst xw), snd xw).
 Definition num2 (f : xreal -> xreal -> world -> res (xreal * world)) (a b : val) (w : world) : res (val * world) :=
   match to_x a, to_x b with Some x, Some y => lift_x (f x y w) | _, _ => Exc "TypeError" end.
@@ -126,10 +130,14 @@ Fixpoint bcast (fuel : nat) (o : binop) (a b : val) (w : world) {struct fuel} : 
   | _, _ => do_binop o a b w
   end end.
 Definition do_binop_np (o : binop) (a b : val) (w : world) : res (val * world) :=
-  match o, a, b with
-  | Add, VList _, VList _ => bcast 4 o a b w     (* numpy arrays add elementwise; Python lists would concatenate: arrays assumed *)
-  | _, VList _, _ | _, _, VList _ => bcast 4 o a b w
-  | _, _, _ => do_binop o a b w
+  match a, b with
+  | VList la, VList lb =>
+      match o with
+      | Add => Ok (VList (la ++ lb)%list, w)                       (* Python lists concatenate *)
+      | _ => Exc "TypeError" end
+  | _, _ =>
+      if is_seq a || is_seq b then do r <- bcast 4 o (ul a) (ul b) w; Ok (arr (fst r), snd r)   (* numpy: elementwise with broadcasting *)
+      else do_binop o a b w
   end.
 Fixpoint map1 (fuel : nat) (g : xreal -> world -> res (xreal * world)) (a : val) (w : world) {struct fuel} : res (val * world) :=
   match fuel with O => Stuck "map1 depth" | S f =>
@@ -171,7 +179,7 @@ Fixpoint contains_l (x : val) (l : list val) : res bool :=
   end.
 Definition contains (x c : val) : res bool :=
   match c with
-  | VList l | VTuple l => contains_l x l
+  | VList l | VTuple l | VArr l => contains_l x l
   | VDict d => Ok (match dict_get x d with Some _ => true | None => false end)
   | _ => Stuck "in: container"
   end.
@@ -191,7 +199,7 @@ Definition do_cmp (o : cmpop) (a b : val) (w : world) : res (bool * world) :=
   end.
 Definition subscript (c i : val) : res val :=
   match c, i with
-  | VList l, VInt z | VTuple l, VInt z =>
+  | VList l, VInt z | VTuple l, VInt z | VArr l, VInt z =>
       if (z <? 0)%Z then Stuck "negative index"
       else match nth_error l (Z.to_nat z) with Some v => Ok v | None => Exc "IndexError" end
   | VDict d, k => match dict_get k d with Some v => Ok v | None => Exc "KeyError" end
@@ -206,6 +214,7 @@ Fixpoint list_set (l : list val) (n : nat) (v : val) : option (list val) :=
 Definition set_item (c i v : val) : res val :=
   match c, i with
   | VList l, VInt z => match list_set l (Z.to_nat z) v with Some l' => Ok (VList l') | None => Exc "IndexError" end
+  | VArr l, VInt z => match list_set l (Z.to_nat z) v with Some l' => Ok (VArr l') | None => Exc "IndexError" end
   | VDict d, k => Ok (VDict (dict_set k v d))
   | _, _ => Stuck "set_item"
   end.
@@ -232,7 +241,7 @@ Fixpoint zrange (start : Z) (n : nat) : list val :=
 Fixpoint enum_from (i : Z) (l : list val) : list val :=
   match l with [] => [] | h :: t => VTuple [VInt i; h] :: enum_from (i + 1) t end.
 Definition as_list (v : val) : res (list val) :=
-  match v with VList l | VTuple l => Ok l | VDict d => Ok (map fst d) | _ => Stuck "not iterable" end.
+  match v with VList l | VTuple l | VArr l => Ok l | VDict d => Ok (map fst d) | _ => Stuck "not iterable" end.
 Definition pure_ (r : res val) (w : world) : res (val * world) := do v <- r; Ok (v, w).
 Definition fold_num (f : R -> R -> R) (l : list val) : res val :=
   match l with
@@ -251,11 +260,11 @@ Definition builtin (name : string) (args : list val) (kws : list (string * val))
   | "np.log10" => Some (num1m (m_log true) args w)
   | "np.log" => Some (num1m (m_log false) args w)
   | "np.exp" => Some (num1 xexp args w)
-  | "np.sqrt" | "math.sqrt" => Some (match args with [a] => map1 3 m_sqrt a w | _ => Exc "TypeError" end)
-  | "np.outer" => Some (match args with [u; v] => np_outer u v w | _ => Exc "TypeError" end)
+  | "np.sqrt" | "math.sqrt" => Some (match args with [a] => do r <- map1 3 m_sqrt (ul a) w; Ok ((if is_seq a then arr (fst r) else fst r), snd r) | _ => Exc "TypeError" end)
+  | "np.outer" => Some (match args with [u; v] => do r <- np_outer (ul u) (ul v) w; Ok (arr (fst r), snd r) | _ => Exc "TypeError" end)
   | "np.sum" | "sum" => Some (match args with [a] => do l <- as_list a; vsum_l l w | _ => Exc "TypeError" end)
-  | "np.zeros_like" => Some (pure_ (match args with [a] => do l <- as_list a; Ok (VList (map (fun _ => VNum (Fin 0)) l)) | _ => Exc "TypeError" end) w)
-  | "np.ones_like" => Some (pure_ (match args with [a] => do l <- as_list a; Ok (VList (map (fun _ => VNum (Fin 1)) l)) | _ => Exc "TypeError" end) w)
+  | "np.zeros_like" => Some (pure_ (match args with [a] => do l <- as_list a; Ok (VArr (map (fun _ => VNum (Fin 0)) l)) | _ => Exc "TypeError" end) w)
+  | "np.ones_like" => Some (pure_ (match args with [a] => do l <- as_list a; Ok (VArr (map (fun _ => VNum (Fin 1)) l)) | _ => Exc "TypeError" end) w)
   | "min" | "np.min" => Some (pure_ (match args with [a] => do l <- as_list a; fold_num Rmin l | _ :: _ :: _ => fold_num Rmin args | _ => Stuck "min: arity" end) w)
   | "max" | "np.max" => Some (pure_ (match args with [a] => do l <- as_list a; fold_num Rmax l | _ :: _ :: _ => fold_num Rmax args | _ => Stuck "max: arity" end) w)
   | "isinstance" => Some (pure_ (match args with
@@ -264,10 +273,11 @@ Definition builtin (name : string) (args : list val) (kws : list (string * val))
                      | _ => Stuck "isinstance" end) w)
   | "callable" => Some (pure_ (match args with [VObj "<bound method>" _] => Ok (VBool true) | [VObj _ _] => Stuck "callable(object)" | [_] => Ok (VBool false) | _ => Stuck "callable" end) w)
   | "tuple" => Some (pure_ (match args with [a] => do l <- as_list a; Ok (VTuple l) | _ => Stuck "tuple" end) w)
-  | "np.ones" => Some (pure_ (match args with [VInt n] => Ok (VList (repeat (VNum (Fin 1)) (Z.to_nat n))) | _ => Stuck "np.ones" end) w)
+  | "np.ones" => Some (pure_ (match args with [VInt n] => Ok (VArr (repeat (VNum (Fin 1)) (Z.to_nat n))) | _ => Stuck "np.ones" end) w)
   | "np.nan_to_num" => Some (num1 xnan_to_num args w)
   | "np.isfinite" => Some (match args with [a] => match to_x a with Some x => Ok (VBool (xisfinite x), w) | None => Stuck "isfinite" end | _ => Exc "TypeError" end)
-  | "copy.deepcopy" | "np.array" | "float" => Some (match args with a :: _ => Ok (a, w) | _ => Exc "TypeError" end)
+  | "copy.deepcopy" | "float" => Some (match args with a :: _ => Ok (a, w) | _ => Exc "TypeError" end)
+  | "np.array" | "np.asarray" => Some (match args with a :: _ => Ok (arr a, w) | _ => Exc "TypeError" end)
   | "int" => Some (match args with [VInt z] => Ok (VInt z, w) | _ => Stuck "int()" end)
   | "str" => Some (pure_ (match args with [a] => match str_of a with Some s => Ok (VStr s) | None => Stuck "str()" end | _ => Exc "TypeError" end) w)
   | "len" => Some (pure_ (match args with [a] => do l <- as_list a; Ok (VInt (Z.of_nat (length l))) | _ => Exc "TypeError" end) w)
@@ -538,8 +548,8 @@ Fixpoint eval (fuel : nat) (e : expr) (ρ : env) (w : world) {struct fuel} : res
                                       | Some c => call f c (Some (VObj ocls ofs)) argv kwv (snd rw)
                                       | None => Stuck ("object not callable " ++ ocls) end
                                   | _ => Stuck ("unknown method " ++ cls ++ "." ++ m) end end
-              | VList _ =>
-                  if String.eqb m "dot" then match argv with [b] => np_dot (fst rw) b (snd rw) | _ => Exc "TypeError" end
+              | VList _ | VArr _ =>
+                  if String.eqb m "dot" then match argv with [b] => do r <- np_dot (ul (fst rw)) (ul b) (snd rw); Ok (arr (fst r), snd r) | _ => Exc "TypeError" end
                   else Stuck ("list method " ++ m)
               | VDict d =>
                   match m, argv with
